@@ -11,7 +11,7 @@ from pedal.types.new_types import (AnyType, ImpossibleType,
 
 def add_tuples(left, right):
     """ Literally just concatenate the types """
-    return tuple(left.element_types) + tuple(right.element_types)
+    return TupleType(tuple(left.element_types) + tuple(right.element_types))
 
 
 def add_element_container_types(left, right):
